@@ -281,6 +281,51 @@ def runtime_checks():
         if getattr(fresh, 'ith_unit', None) is not None or tuple(fresh.enforce(net, tt).shape) != (4, 3):
             bad.append(dict(case='a new NoCondition after others were bound to units', unit_now=getattr(fresh, 'ith_unit', None),
                             violated='a fresh condition is already bound to a unit'))
+    # copies of a condition (deepcopy - what get_solution(copy=True) makes -, copy, pickle) keep the output unit they are bound to
+    import copy as _copy, pickle as _pickle
+    net = FCNN(1, 3, hidden_units=(3,))
+    tt = torch.rand(4, 1, requires_grad=True)
+    for cname, mk in (('IVP', lambda: IVP(0.25, 1.5)), ('DirichletBVP', lambda: DirichletBVP(0., 0., 1., 1.)), ('NoCondition', lambda: NoCondition()),
+                      ('DoubleEndedBVP1D-dn', lambda: DoubleEndedBVP1D(0., 1., x_min_val=0., x_max_prime=1.))):
+        for unit in (0, 2):
+            c = mk()
+            c.ith_unit = unit
+            ref = c.enforce(net, tt)
+            for how, cp in (('deepcopy', lambda o: _copy.deepcopy(o)), ('copy', lambda o: _copy.copy(o)), ('pickle round trip', lambda o: _pickle.loads(_pickle.dumps(o)))):
+                try:
+                    cc = cp(c)
+                    got = cc.enforce(net, tt)
+                    if getattr(cc, 'ith_unit', None) != unit or tuple(got.shape) != (4, 1) or not torch.equal(got, ref):
+                        bad.append(dict(case=f'{how} of a condition bound to an output unit', condition=cname, unit=unit, unit_of_copy=getattr(cc, 'ith_unit', None),
+                                        shape=list(got.shape), violated='the copy does not constrain the same single output unit'))
+                except Exception as e:
+                    bad.append(dict(case=f'{how} of a condition bound to an output unit', condition=cname, unit=unit, error=f'{type(e).__name__}: {e}'))
+    # user conditions derived from NoCondition (polymorphic in the input width) that DO re-parameterise: an ensemble applies each to its column
+    class Squared(NoCondition):
+        def parameterize(self, output_tensor, *input_tensors):
+            return output_tensor ** 2 + 1.0
+
+    class Damped(NoCondition):
+        def parameterize(self, output_tensor, *input_tensors):
+            return output_tensor * input_tensors[0]
+    net2 = FCNN(1, 2, hidden_units=(3,))
+    raw = net2(tt)
+    for cs, want in (((Squared(), Damped()), torch.cat([raw[:, :1] ** 2 + 1.0, raw[:, 1:2] * tt], 1)), ((Squared(), Squared()), raw ** 2 + 1.0),
+                     ((NoCondition(), Damped()), torch.cat([raw[:, :1], raw[:, 1:2] * tt], 1))):
+        got = EnsembleCondition(*cs).enforce(net2, tt)
+        if tuple(got.shape) != (4, 2) or not torch.allclose(got, want, rtol=0, atol=1e-12):
+            bad.append(dict(case='ensemble of user conditions derived from NoCondition', sub_conditions=[type(c).__name__ for c in cs],
+                            violated='column i is not sub-condition i applied to output unit i', got=got.detach().tolist(), want=want.detach().tolist()))
+    # batches of exactly one sample (and of none): an ensemble still returns one row per sample and one column per sub-condition
+    for nrows in (1, 0, 2):
+        for k in (2, 3):
+            t1 = torch.rand(nrows, 1, requires_grad=True)
+            try:
+                out = EnsembleCondition(*[IVP(0., float(i)) for i in range(k)]).enforce(FCNN(1, k, hidden_units=(3,)), t1)
+                if tuple(out.shape) != (nrows, k):
+                    bad.append(dict(case='ensemble on a batch of exactly one (or zero) samples', rows=nrows, conditions=k, shape=list(out.shape), want=[nrows, k]))
+            except Exception as e:
+                bad.append(dict(case='ensemble on a batch of exactly one (or zero) samples', rows=nrows, conditions=k, error=f'{type(e).__name__}: {e}'))
     one = lambda t: t
     for mk in (lambda: IBVP1D(0., 1., 0., one, x_min_val=one, x_max_val=one), lambda: DoubleEndedBVP1D(0., 1., x_min_val=0., x_max_val=1.)):
         c = mk()
